@@ -8,6 +8,7 @@ import (
 	"verif/checker/internal/ir"
 	"verif/checker/internal/load"
 	"verif/checker/internal/normalize"
+	"verif/checker/internal/rules"
 )
 
 // dumpVocab prints the qualified names of all named functions of the closure (debug aid used to
@@ -63,5 +64,19 @@ func dumpFields(p *load.Program) {
 	sort.Strings(lines)
 	for _, l := range lines {
 		fmt.Println(l)
+	}
+}
+
+// dumpWriters prints, for every field of a named struct of the module, the functions that store to it
+// through something other than a fresh composite literal (debug aid used to build the WRT-1 table).
+func dumpWriters(p *load.Program) {
+	w := rules.FieldWriters(p)
+	var keys []string
+	for k := range w {
+		keys = append(keys, k)
+	}
+	sort.Strings(keys)
+	for _, k := range keys {
+		fmt.Printf("%-40s %v\n", k, w[k])
 	}
 }
